@@ -11,23 +11,26 @@ CLAIM = {
     "technique": "Lean 4 theorems about a transliteration of PrettyDecimal::from_str / Display (byte state machine, "
                  "rust_decimal range check, Comma3Dot printer) against an independent recogniser/value function, + exhaustive "
                  "short-string and random long-string correspondence with the real parser and printer, in every syntactic position",
-    "text": ("Proof: the literal scanner is modelled branch by branch (comma_pos, format, mantissa, scale, prefix_len, sign, has_digit, "
-             "end-of-input validation, i128 checked arithmetic, Decimal::try_from_i128_with_scale) and the printer digit by digit. "
-             "Theorems for ALL strings: C07_sound (accepted => well-formed, value/scale/grouping exactly as written), C07_complete "
-             "(well-formed and representable => accepted), C07_reject (anything else => an error value, never a panic or a wrapped/"
-             "truncated number), C07_total (no panic, no hang). The well-formedness predicate and value function are an independent "
-             "transcription of the property text (Spec/Literal.lean) and are re-implemented a third time in the python oracle (a regular "
-             "expression), which is evaluated on what the real code returned. Printing: C07_print_* theorems (see theorems list; what is "
-             "not yet a theorem is covered by the exhaustive print/re-read correspondence and says so in the evidence). "
-             "The model is tied to core/src/syntax/pretty_decimal.rs and parse/primitive.rs by running PrettyDecimal::from_str + to_string "
-             "and the real ledger parser / price-db loader on every string over {0,1,5,9,',','.','-'} up to length 6 (7 in the thorough "
-             "tier), random literals up to 45 digits around the 2^96 / 28-place boundaries, and literals embedded as posting amount, "
-             "parenthesised / negated operand, cost, total cost, lot price, balance assertion, commodity format and price-db rate."),
+    "text": ("Proof (partial): the literal scanner is modelled branch by branch (comma_pos, format, mantissa, scale, prefix_len, sign, "
+             "has_digit, end-of-input validation, i128 checked arithmetic, Decimal::try_from_i128_with_scale) and the printer digit by "
+             "digit. Theorems for ALL strings: C07_total (value or error, no panic, no hang); C07_closed_form: the state machine accepts "
+             "exactly optional '-' + digits + (nothing | '.' digits | after 1-3 leading digits, one or more complete ',ddd' groups then "
+             "nothing or '.' digits), returns mantissa = the digits read as one number, scale = digits after the point, format = "
+             "grouped / plain / none, no negative zero, subject to < 2^96 and <= 28 places, and everything else is an error value "
+             "(C07_reject_is_error). NOT yet theorems: the reduction of the closed form to the split-style predicates of Spec/Literal.lean "
+             "(C07_sound_stmt / C07_complete_stmt / C07_reject_stmt stay visible as Prop definitions) and the print/re-read law "
+             "(C07_print_stmt; its naive form is refuted by C07_print_naive_false: `0,123` prints as `123`). Those clauses are covered by "
+             "the correspondence: on every run PrettyDecimal::from_str + to_string and the real ledger parser / price-db loader are run on "
+             "every string over {0,1,5,9,',','.','-'} up to length 6 (7 thorough), random literals up to 45 digits around 2^96 / 28 places / "
+             "2^127, and literals embedded in 11 syntactic positions; the Lean Spec predicates and an independent regular-expression "
+             "oracle are evaluated on what the real code returned (acceptance, value, places, grouping, printed text re-read)."),
     "note": "rust_decimal's Display/rescale and winnow's take_while/try_map are modelled from their sources, validated by the correspondence only.",
     "design_ref": "DESIGN.md section 6, C07",
 }
 
-THEOREMS = []
+THEOREMS = ["Okane.C07.C07_total", "Okane.C07.C07_closed_form", "Okane.C07.C07_reject_is_error", "Okane.C07.C07_print_naive_false",
+            "Okane.C07.run_frac", "Okane.C07.run_comma", "Okane.C07.run_tail", "Okane.C07.run_digits",
+            "Okane.C07.run_first_comma", "Okane.C07.run_body"]
 
 ALPHABET = "0159,.-"
 POSITIONS = ["amount", "paren", "neg", "cost", "total", "lot", "lottotal", "balance", "balonly", "format", "pricedb"]
